@@ -25,8 +25,15 @@ N_ = "contracts.parsing_native"
 # classes the property does not demand (DESIGN 8/C16): a non-infix ARRANGEMENT of a complete token set that the shunting-yard passes through
 # (`a is t a is t and`), and engines that import fine but cannot be processed for reasons outside the parser (no activation method, an
 # empty Discrete term, mixed weighted-defuzzifier term kinds: readiness is C19's subject and these fail with a clean ValueError/TypeError there)
-NOT_DEMANDED = ["accepted-malformed:antecedent-arrangement", "accepted-not-processable"]
-RP_FLL = {"module": N_, "func": "replay_fll_mutations", "kwargs": {"budget": 40, "skip_classes": ["accepted-malformed:antecedent-arrangement", "accepted-not-processable"]}, "vars": {}}
+NOT_DEMANDED = ["accepted-malformed:antecedent-arrangement",
+                # imported engines that report ready but cannot be processed for a reason OUTSIDE the parser, each failing with a clean error
+                # (exactly the sites seen on the unchanged tree; any other site - e.g. a Function term left unloaded - is reported):
+                "accepted-not-processable:ValueError@rule.py:activate",            # rule block without an `activation:` line
+                "accepted-not-processable:ValueError@term.py:membership",          # Discrete term without pairs
+                "accepted-not-processable:TypeError@defuzzifier.py:infer_type",    # weighted defuzzifier over mixed term kinds
+                "accepted-not-processable:ValueError@term.py:evaluate"]            # Function term naming an unknown variable
+RP_FLL = {"module": N_, "func": "replay_fll_mutations", "kwargs": {"budget": 40, "skip_classes": ["accepted-malformed:antecedent-arrangement", "accepted-not-processable:ValueError@rule.py:activate", "accepted-not-processable:ValueError@term.py:membership",
+                                                                                        "accepted-not-processable:TypeError@defuzzifier.py:infer_type", "accepted-not-processable:ValueError@term.py:evaluate"]}, "vars": {}}
 RP = {"module": N_, "func": "replay_rule_text", "kwargs": {"budget": 60, "skip_classes": NOT_DEMANDED}, "vars": {}}
 ALLOWED = ("SyntaxError", "ValueError")
 
@@ -592,6 +599,8 @@ def build(run):
                 bound=f"every rule of the 61 shipped examples mutated at every token position (deletion, duplication, substitution, truncation, swap, move; pairs in the thorough tier), budget {b}")
     run.bounded("importer.FllImporter.from_string/document_mutations.runtime", N_, "replay_fll_mutations", [dict(seed=run.seed, budget=b, skip_classes=NOT_DEMANDED)],
                 bound=f"61 shipped FLL documents + 3 hand-written ones mutated at line and token level (budget {b}): outcome success / SyntaxError / ValueError / KeyError, re-exportable, rules loaded and in the grammar")
+    run.bounded("importer.FllImporter.from_string/edge_document_mutations.runtime", "contracts.fll_edge_native", "replay_fll_edge_mutations", [dict(seed=run.seed, skip_classes=NOT_DEMANDED)],
+                bound="two small documents whose Function / Linear / Discrete / Constant terms and First activation have one-token parameter lists, ALL line and token mutants (about 6 500 documents)")
 
 
 if __name__ == "__main__":
